@@ -4,3 +4,4 @@ pub mod tracestore;
 pub mod coll;
 pub mod nexus;
 pub mod sched;
+pub mod tsched;
